@@ -129,7 +129,9 @@ def txApply (s : TxSt) (tok : String) : Option (String × TxSt) :=
       | some (x, false) =>
         if c == 'C' then
           let r := Txn.commit s.w x
-          ("", { w := r.1, txns := setTxn s.txns j (r.2, false) })
+          let ord := if x.finalized then [] else (x.ts.filter fun t => !t.committed).map fun t => toString t.mgr
+          let o := if ord.isEmpty then "-" else ",".intercalate ord
+          (s!"ord={o} ", { w := r.1, txns := setTxn s.txns j (r.2, false) })
         else if c == 'R' then
           let r := Txn.rollback s.w x
           ("", { w := r.1, txns := setTxn s.txns j (r.2, false) })
